@@ -241,7 +241,7 @@ class State:
 
 
 class Loop:
-    __slots__ = ("node", "kind", "var", "varterm", "start", "stop", "step", "iterval", "assigned", "written", "head_env")
+    __slots__ = ("node", "kind", "var", "varterm", "start", "stop", "step", "iterval", "assigned", "written", "head_env", "descending")
 
     def __init__(self, node, kind, var=None):
         self.node = node
@@ -253,6 +253,7 @@ class Loop:
         self.assigned = set()
         self.written = set()
         self.head_env = {}
+        self.descending = False     # a count-down `while`: the indices of range(start, stop) visited from the top
 
 
 class Event:
@@ -639,7 +640,10 @@ class Walker:
                 # a typed scalar parameter truncates: transparent only if provably in range (or the value already has that very type)
                 lo, hi = ty.range()
                 if not (self.P.prove_le0(a.lin - hi, st.facts) and self.P.prove_le0(Lin.const(lo) - a.lin, st.facts)):
+                    a_in = a
                     a = Num(Lin.term(self.fresh("cast", repr(ty), ty.range())), ty=ty)
+                    # (recorded so that dependency queries can look through the truncation to the argument)
+                    self.emit("cast", call, st, target=ty, arg=a_in, result=a, fromfloat=False, inrange=None)
             env[p] = a
         env["^caller"] = saved_env        # not a Python name: lets rules see the caller's variables from events inside the callee
         st.env = env
@@ -866,7 +870,60 @@ class Walker:
             return outs
         return self.run_loop(s, st, lp, s.body, s.orelse)
 
+    def countdown_while(self, s, st):
+        """`i = n ... while i > 0: i -= 1; BODY(i)` visits i = n-1, ..., 0: the set of indices of `for i in range(n)`, in descending order.
+        Returned as a range loop over [0, n) with `descending` set (rules for which the order matters look at the flag) and the body
+        without its leading decrement; None if the loop is not of that form."""
+        t = s.test
+        if not (isinstance(t, ast.Compare) and len(t.ops) == 1 and not s.orelse and len(s.body) >= 2):
+            return None
+        var = None
+        if isinstance(t.left, ast.Name) and isinstance(t.comparators[0], ast.Constant):
+            c = t.comparators[0].value
+            if (isinstance(t.ops[0], (ast.Gt, ast.NotEq)) and c == 0) or (isinstance(t.ops[0], ast.GtE) and c == 1):
+                var = t.left.id
+        elif isinstance(t.comparators[0], ast.Name) and isinstance(t.left, ast.Constant):
+            c = t.left.value
+            if (isinstance(t.ops[0], (ast.Lt, ast.NotEq)) and c == 0) or (isinstance(t.ops[0], ast.LtE) and c == 1):
+                var = t.comparators[0].id
+        elif isinstance(t.left, ast.Name) and isinstance(t.comparators[0], ast.Call) and len(t.comparators[0].args) == 1 \
+                and isinstance(t.comparators[0].args[0], ast.Constant) and t.comparators[0].args[0].value == 0 and isinstance(t.ops[0], (ast.Gt, ast.NotEq)):
+            var = t.left.id           # `i > uint64(0)`
+        if var is None:
+            return None
+        first = s.body[0]
+        dec = None
+        if isinstance(first, ast.AugAssign) and isinstance(first.op, ast.Sub) and isinstance(first.target, ast.Name) and first.target.id == var:
+            dec = first.value
+        elif isinstance(first, ast.Assign) and len(first.targets) == 1 and isinstance(first.targets[0], ast.Name) and first.targets[0].id == var \
+                and isinstance(first.value, ast.BinOp) and isinstance(first.value.op, ast.Sub) and isinstance(first.value.left, ast.Name) \
+                and first.value.left.id == var:
+            dec = first.value.right
+        if dec is None:
+            return None
+        dv = self.ev(dec, st)
+        if not (isinstance(dv, Num) and dv.lin == Lin.const(1)):
+            return None
+        others = [n for b in s.body[1:] for n in walk_no_nested(b)
+                  if (isinstance(n, ast.Name) and n.id == var and isinstance(n.ctx, ast.Store)) or isinstance(n, ast.Continue)]
+        if others:
+            return None
+        start = st.env.get(var)
+        if not isinstance(start, Num):
+            return None
+        lp = Loop(s, "range", var)
+        lp.start, lp.stop, lp.step = Lin.const(0), start.lin, Lin.const(1)
+        lp.descending = True
+        return lp
+
     def s_While(self, s, st):
+        cd = self.countdown_while(s, st)
+        if cd is not None:
+            outs = self.run_loop(s, st, cd, s.body[1:], s.orelse)
+            for x in outs:
+                if x[1] == "fall" and isinstance(x[0].env.get(cd.var), Num):
+                    x[0].env[cd.var] = Num(Lin.const(0))          # after a complete count-down the counter is 0
+            return outs
         cl = self.counter_while(s, st)
         if cl is not None:
             if cl.start.is_const() and cl.stop.is_const() and cl.stop.k <= cl.start.k and not s.orelse:
@@ -1583,6 +1640,15 @@ class Walker:
             t = ("len", repr(_vkey(v)))
             self.named(t, (0, LEN_MAX))
             return Num(Lin.term(t))
+        if d == "bool" and len(e.args) == 1 and not e.keywords:
+            v = self.ev(e.args[0], st)
+            if isinstance(v, Bool):
+                return v                      # bool(a != b) is that comparison's truth value
+            if isinstance(v, Num):
+                return Bool(self.as_cond(v, e.args[0]))
+            return Bool(self.as_cond(v, e.args[0]))
+        if d in ("min", "max") and len(e.args) == 1 and not e.keywords and isinstance(e.args[0], (ast.Tuple, ast.List)) and len(e.args[0].elts) == 2:
+            e = ast.copy_location(ast.Call(func=e.func, args=list(e.args[0].elts), keywords=[]), e)      # min((a, b)) is min(a, b)
         if d in ("min", "max") and len(e.args) == 2 and not e.keywords:
             a, b = self.ev(e.args[0], st), self.ev(e.args[1], st)
             if isinstance(a, Num) and isinstance(b, Num):
